@@ -359,6 +359,11 @@ func (s *alphSim) makeEvent(kind, level, variant int, seq uint64) *simEvent {
 			e.targetChain = 0
 			targetV = u256("0")
 		}
+		if variant%16 == 7 {
+			// the largest legal consistency level (the token bridge only enforces a minimum)
+			e.level = 255
+			levelS = "255"
+		}
 	case 7:
 		e.contract = addrOf(lookID)
 		e.sequence = seq + 1000
@@ -1005,6 +1010,7 @@ func (h alphHarness) Exec(p *simkit.Program) *simkit.Result {
 				break
 			}
 			s.runStep(st)
+			synctest.Wait()
 			s.log.Add("h=%d log=%d inc=%d handoffs=%d", s.height(), len(s.govLog), s.inc, len(s.handoffs))
 			s.log.Cut(fmt.Sprintf("%d %s t=%v", i, st, s.now()))
 		}
